@@ -1,6 +1,9 @@
 """Fail-closed translators: /repo working tree -> coq/Generated/*.v (rewritten on every run)."""
-from . import eetable
+from . import eetable, aligntables
 
 ALL = [
     ("EETable.v", eetable.generate),
+    ("Tables.v", aligntables.gen_tables),
+    ("Flags.v", aligntables.gen_flags),
+    ("Scores.v", aligntables.gen_scores),
 ]
